@@ -7,6 +7,26 @@ CHECKS = {
    technique="explicit-state BFS over event histories on the real storage functions, dedup on canonical state, reference-model oracle",
    text="Breadth-first exploration to a fixpoint of every announce/scrape/clean/tick history over small alphabets (1 torrent x 4 keys; 2 torrents x 2 families; 2 torrents x 2 keys), every transition executed on the real aquatic_udp::swarm::TorrentMaps and compared with a reference tracker, plus hand-out/scrape probes in every state. Exhaustive within the alphabet; right level because the property quantifies over histories.",
    note="Alphabet bounds (keys, torrents, clock 0..2); sequential histories only; verif_dump (hook H3) trusted to read state faithfully."),
+ "C07": dict(level="model_checking", engine="seqmc", ref="§3 C07",
+   technique="explicit-state BFS over event histories on the real HTTP swarm storage, dedup on canonical state, reference-model oracle",
+   text="BFS to a fixpoint (order-free key, 5-6 keys crossing the inline<=4/heap switch; two torrents x two families with max_scrape_torrents=2, repeated / unknown / excess hashes; IPv6 with stops of never-seen torrents) and depth-bounded with storage order in the key; every transition runs aquatic_http's TorrentMaps (hook H4, mock clock H1) and is compared with a reference tracker; hand-out and scrape probes in every state; torrent count after each clean.",
+   note="Alphabet bounds; order-free key is cross-checked by the ordered run; verif_dump (H4) and the clock override (H1) trusted."),
+ "C08": dict(level="model_checking", engine="seqmc", ref="§3 C08",
+   technique="explicit-state BFS over event histories on the real WS swarm storage plus a model of the socket worker's per-connection bookkeeping, reference-model oracle",
+   text="BFS over announce/scrape/close/clean/tick histories from connections on two socket workers whose slot keys coincide, two-three peer ids, one-two torrents, both families: fixpoint for 2 connections x 2 peer ids, depth-bounded for 3x3x2. Every out-message list is compared with a reference tracker with per-connection ownership.",
+   note="Socket-side bookkeeping (announced_info_hashes) is a 30-line model of connection.rs, exercised end to end by C17; depth bound where no fixpoint; scrapes within max_scrape_torrents."),
+ "C09": dict(level="model_checking", engine="seqmc", ref="§3 C09",
+   technique="explicit-state BFS over event histories on the real WS swarm storage, oracle on every out-message list",
+   text="BFS over announces carrying 0-3 offers (repeated offer ids) and answers (right / wrong / unknown peer, wrong id, twice, after stop / close / ageing with and without clean) among 2-4 peers on 1-2 torrents with max_offers 1-2: fixpoint for the 2-peer alphabet, depth-bounded otherwise. Checks count, distinctness, addressee and tagging of every forwarded offer and the exact pending-offer rule for answers.",
+   note="Receiver choice is the implementation's; the oracle checks legality and follows it. Depth bounds as reported."),
+ "C10": dict(level="model_checking", engine="seqmc", ref="§3 C10",
+   technique="explicit-state BFS with time-focused alphabets on the UDP, HTTP and WS storages + exhaustive grid over ValidUntil",
+   text="For all three storages: every announce time, several maximum ages, stale worker samples, cleans at every clock value (so deadline-1, deadline, deadline+1 all occur), inline and heap representations, seeders and leechers, WS offers; to a fixpoint except the 5-key HTTP run (depth-bounded in quick). Reference tracker oracle + probes in every state; ValidUntil::valid on a full small grid and u32 extremes.",
+   note="Mock clock is monotone; sampling cadence of the socket workers is read from the code, not explored."),
+ "C20": dict(level="model_checking", engine="seqmc", ref="§3 C20",
+   technique="explicit-state BFS over event histories on the real UDP storage with statistics, per-client tallies and scrape export enabled; reference-model oracle after every cleaning pass",
+   text="BFS to a fixpoint over announce / stop / re-announce-with-new-peer-id / expiry histories (3 keys x 3 peer ids; 2 torrents x 2 families; heap maps) with the statistics worker's own fold as tally; after every clean: torrent and peer totals, per-client tallies and the parsed export file equal the reference tracker.",
+   note="Tally fold is a model of run_statistics_worker's loop; crash points of the export are a separate sub-check (see DESIGN); access list off."),
 }
 
 NOT_YET = {}
